@@ -206,7 +206,12 @@ func (s *SencBox) ParseReadBox(perSampleIVSize byte, saiz *SaizBox) error {
 			s.perSampleIVSize = perSampleIVSize
 		}
 
-		s.IVs = make([]InitializationVector, 0, s.SampleCount)
+		if uint64(perSampleIVSize)*uint64(s.SampleCount) > uint64(nrBytesLeft) {
+			return fmt.Errorf("senc: %d samples with IV size %d do not fit in %d bytes", s.SampleCount, perSampleIVSize, nrBytesLeft)
+		}
+		if perSampleIVSize != 0 {
+			s.IVs = make([]InitializationVector, 0, s.SampleCount)
+		}
 		switch perSampleIVSize {
 		case 0:
 			// Nothing to do
@@ -256,6 +261,9 @@ func (s *SencBox) ParseReadBox(perSampleIVSize byte, saiz *SaizBox) error {
 // parseAndFillSamples - parse and fill senc samples given perSampleIVSize
 func (s *SencBox) parseAndFillSamples(sr bits.SliceReader, perSampleIVSize byte) (ok bool) {
 	ok = true
+	if uint64(s.SampleCount)*(2+uint64(perSampleIVSize)) > uint64(sr.NrRemainingBytes()) {
+		return false // Each sample needs at least its IV and a subsample count
+	}
 	s.SubSamples = make([][]SubSamplePattern, s.SampleCount)
 	for i := 0; i < int(s.SampleCount); i++ {
 		if perSampleIVSize > 0 {
@@ -316,6 +324,9 @@ func (s *SencBox) Size() uint64 {
 func (s *SencBox) calcSize() uint64 {
 	totalSize := uint64(boxHeaderSize + 8)
 	perSampleIVSize := uint64(s.GetPerSampleIVSize())
+	if s.Flags&UseSubSampleEncryption == 0 {
+		return totalSize + perSampleIVSize*uint64(s.SampleCount)
+	}
 	for i := uint32(0); i < s.SampleCount; i++ {
 		totalSize += perSampleIVSize
 		if s.Flags&UseSubSampleEncryption != 0 {
@@ -359,6 +370,9 @@ func (s *SencBox) EncodeSWNoHdr(sw bits.SliceWriter) error {
 		return sw.AccError()
 	}
 	perSampleIVSize := s.GetPerSampleIVSize()
+	if perSampleIVSize == 0 && s.Flags&UseSubSampleEncryption == 0 {
+		return sw.AccError() // No per-sample data
+	}
 	for i := 0; i < int(s.SampleCount); i++ {
 		if perSampleIVSize > 0 {
 			sw.WriteBytes(s.IVs[i])
